@@ -6,18 +6,25 @@
 EXTENDS Store_MC, Json
 VARIABLE h
 gvars == <<vars, h>>
-Inp(o) == [ev |-> o.ev, tgt |-> o.tgt, task |-> o.task, a |-> o.a, s |-> o.s, v |-> o.v, run |-> o.run, c |-> o.c,
+Inp(o) == [ev |-> o.ev, tgt |-> o.tgt, task |-> o.task, tks |-> o.tks, a |-> o.a, s |-> o.s, v |-> o.v, run |-> o.run, c |-> o.c,
            lvl |-> o.lvl, to |-> o.to]
 GenInit == Init /\ h = <<>>
 GenNext == Next /\ h' = Append(h, Inp(out'))
 GenSpec == GenInit /\ [][GenNext]_gvars
 Emit == PrintT(<<"SCHED", ToJson([h |-> h'])>>)
-(* only the histories of full length that store something, change a version, and end in an operation
-   addressed by name (set-up, change, observe: e.g. update, version bump, reset) *)
+(* only histories of full length (three operations) of one of these shapes:
+   (a) something is stored, a version changes, and the last operation is addressed by name
+       (set-up, change, observe: e.g. update, version bump, reset)
+   (b) the same names are stored twice, under another run or another task, and the last operation is a worm
+       request or a trace (one call naming several tasks included) *)
 ByName == {"Remove", "Reset", "Trace"}
-EmitObserved ==
-    IF /\ Len(h') = MaxOps /\ out'.ev \in ByName
-       /\ \E i \in DOMAIN h : h[i].ev = "Update"
-       /\ \E i \in DOMAIN h : h[i].ev = "Bump"
-    THEN PrintT(<<"SCHED", ToJson([h |-> h'])>>) ELSE TRUE
+Twice == /\ Len(h) = 2 /\ h[1].ev = "Update" /\ h[2].ev = "Update"
+         /\ h[1].tgt = h[2].tgt /\ h[1].a = h[2].a /\ h[1].s = h[2].s /\ h[1].v = h[2].v
+         /\ (h[1].run # h[2].run \/ h[1].task # h[2].task)
+ShapeA == /\ out'.ev \in ByName
+          /\ \E i \in DOMAIN h : h[i].ev = "Update"
+          /\ \E i \in DOMAIN h : h[i].ev = "Bump"
+ShapeB == out'.ev \in {"Worm", "Trace"} /\ Twice
+EmitObserved == IF Len(h') = MaxOps /\ (ShapeA \/ ShapeB) THEN PrintT(<<"SCHED", ToJson([h |-> h'])>>) ELSE TRUE
+EmitTwice    == IF Len(h') = MaxOps /\ ShapeB THEN PrintT(<<"SCHED", ToJson([h |-> h'])>>) ELSE TRUE
 =============================================================================
